@@ -9,7 +9,7 @@ from ..flow import Flow
 from ..model import AnalysisError, Cls, Func, Program, walk_own
 from ..report import Report
 from ..resolve import const_value, dotted, kwarg
-from ..util import calls_in, ext_name, is_manager_expr, manager_fields, returns_of, src
+from ..util import before, calls_in, ext_name, is_manager_expr, manager_fields, returns_of, src
 from .filefam import FILES_MOD
 
 
@@ -86,7 +86,7 @@ def r2_registered(prog, rep: Report, tp: Cls, fp: Cls):
     rep.rule("C20.R2", "every acquisition is registered: create() appends the name of the created file (delete=False) to the "
              "registry on every normal path, closes the handle and returns that name; FilePool.open maps every given path to "
              "open(path, mode)", floor=2)
-    f = prog.method(tp, "create")
+    f = prog.method_view(tp, "create")
     rep.fn(f)
     reg = _registry_field(prog, tp)
     flow = Flow(f.node)
@@ -125,7 +125,12 @@ def r2_registered(prog, rep: Report, tp: Cls, fp: Cls):
             if len(dc.generators) == 1 and not g.ifs and dotted(g.iter) == (o.self_name, files_f) and isinstance(g.target, ast.Name) \
                     and src(dc.key) == g.target.id and isinstance(dc.value, ast.Call) and src(dc.value.func) == "open" \
                     and [src(a) for a in dc.value.args] == [g.target.id, f"{o.self_name}.{mode_f}"]:
-                ok = dotted(n.targets[0]) is not None and dotted(n.targets[0])[0] == o.self_name
+                t0 = n.targets[0]
+                # stored on the pool directly, or built in a local that is then stored on the pool
+                ok = (dotted(t0) is not None and dotted(t0)[0] == o.self_name) or \
+                    (isinstance(t0, ast.Name) and any(isinstance(m, ast.Assign) and isinstance(m.value, ast.Name) and m.value.id == t0.id
+                                                      and dotted(m.targets[0]) and dotted(m.targets[0])[0] == o.self_name
+                                                      for m in walk_own(o.node)))
     rep.check("C20.R2", o, "open-all", ok, "{path: open(path, mode) for path in files}, unfiltered",
               "FilePool.open does not map every given path to open(path, self.<mode>)",
               scenario="some of the given files are not opened (or opened in another mode): pool[path] raises KeyError")
@@ -140,18 +145,37 @@ def _is_manager_list(call: ast.Call) -> bool:
 
 
 def _multi_proc_field(prog, tp: Cls) -> str:
-    """the constructor parameter that selects the multi-process mode is stored in this field (a bool parameter whose name or the
-    field's tests guard the Manager creation)"""
-    init = prog.method(tp, "__init__")
+    """the field that holds the constructor's multi-process switch: the parameter (or the field it is stored in) on which the
+    creation of the Manager depends, by an `if` or by a conditional expression"""
+    init = prog.method_view(tp, "__init__")
+    stored = {}
     for n in walk_own(init.node):
         if isinstance(n, ast.Assign) and isinstance(n.value, ast.Name) and n.value.id in init.params:
             d = dotted(n.targets[0])
             if d and len(d) == 2 and d[0] == init.self_name:
-                # the parameter guards the Manager() creation in the constructor
-                for m in walk_own(init.node):
-                    if isinstance(m, ast.If) and src(m.test) in (n.value.id, f"{init.self_name}.{d[1]}") \
-                            and any("Manager" in src(c.func) for c in calls_in(m)):
-                        return d[1]
+                stored[n.value.id] = d[1]
+
+    def switch_of(test) -> Optional[str]:
+        t = test.operand if isinstance(test, ast.UnaryOp) and isinstance(test.op, ast.Not) else test
+        if isinstance(t, ast.Name) and t.id in stored:
+            return stored[t.id]
+        d = dotted(t)
+        if d and len(d) == 2 and d[0] == init.self_name and d[1] in stored.values():
+            return d[1]
+        return None
+
+    def has_manager(nodes) -> bool:
+        return any(isinstance(c, ast.Call) and src(c.func).split(".")[-1] in ("Manager", "SyncManager")
+                   for x in nodes for c in ast.walk(x))
+    for n in walk_own(init.node):
+        if isinstance(n, ast.If) and has_manager(n.body + n.orelse):
+            sw = switch_of(n.test)
+            if sw:
+                return sw
+        if isinstance(n, ast.IfExp) and has_manager([n.body, n.orelse]):
+            sw = switch_of(n.test)
+            if sw:
+                return sw
     raise AnalysisError("TmpPool.__init__: the field holding the multi-process switch was not found")
 
 
@@ -181,7 +205,7 @@ def r3_covers(prog, rep: Report, tp: Cls, fp: Cls):
              "list iff multi_proc); remove deletes the file and unregisters the path; FilePool.close closes each handle and "
              "drops the mapping", floor=5)
     reg = _registry_field(prog, tp)
-    f = prog.method(tp, "flush")
+    f = prog.method_view(tp, "flush")
     rep.fn(f)
     loops = [n for n in f.node.body if isinstance(n, ast.For) and dotted(n.iter) == (f.self_name, reg)]
     ok, why = False, f"flush does not loop over self.{reg}"
@@ -218,7 +242,7 @@ def r3_covers(prog, rep: Report, tp: Cls, fp: Cls):
               "after flush the registry is not an empty list of the right kind (manager list iff multi_proc)",
               scenario="multi_proc pool: flush(), then a child process calls create(): with a plain list the parent never learns "
                        "about the file and leaves it behind")
-    en = prog.method(tp, "__enter__")
+    en = prog.method_view(tp, "__enter__")
     rep.fn(en)
     # per mode (multi_proc / single process): what does __enter__ make of the registry?
     #   multi_proc : it must become a manager list (children append to it) that starts with the paths already registered
@@ -278,14 +302,14 @@ def r3_covers(prog, rep: Report, tp: Cls, fp: Cls):
     else:
         rep.ok("C20.R3", en, "enter-registry", "__enter__ makes the registry a manager list seeded with the registered paths iff "
                "multi_proc, leaves it alone otherwise, and returns the pool")
-    rmv = prog.method(tp, "remove")
+    rmv = prog.method_view(tp, "remove")
     rep.fn(rmv)
     p = rmv.params[1]
     rm = [c for c in calls_in(rmv.node) if ext_name(prog, rmv, c) in ("os.remove", "os.unlink") and [src(a) for a in c.args] == [p]]
     unreg = [c for c in calls_in(rmv.node) if isinstance(c.func, ast.Attribute) and c.func.attr == "remove"
              and dotted(c.func.value) == (rmv.self_name, reg) and [src(a) for a in c.args] == [p]]
     uncond = all(getattr(getattr(c, "_parent", None), "_parent", None) is rmv.node for c in unreg)
-    order_ok = bool(rm) and bool(unreg) and rm[0].lineno < unreg[0].lineno
+    order_ok = bool(rm) and bool(unreg) and before(rmv.node, rm[0], unreg[0])
     rep.check("C20.R3", rmv, "remove-order", order_ok, "the path is unregistered only after the deletion was attempted",
               "remove() drops the path from the registry before os.remove ran: if the deletion fails (e.g. PermissionError) the file "
               "stays on disk but is no longer listed, so neither flush() nor leaving the context removes it",
@@ -293,12 +317,20 @@ def r3_covers(prog, rep: Report, tp: Cls, fp: Cls):
     rep.check("C20.R3", rmv, "remove", len(rm) == 1 and len(unreg) == 1 and uncond, "deletes the file and unregisters the path",
               "remove() does not both delete the file and (unconditionally) unregister the path",
               scenario="pool.remove(p) leaves p listed: len(pool) and pool[i] disagree with the files on disk")
-    cl = prog.method(fp, "close")
+    cl = prog.method_view(fp, "close")
     rep.fn(cl)
     hf = None
-    for n in walk_own(prog.method(fp, "open").node):
+    o_ = prog.method(fp, "open")
+    for n in walk_own(o_.node):
         if isinstance(n, ast.Assign) and isinstance(n.value, ast.DictComp):
-            hf = dotted(n.targets[0])[1]
+            t0 = n.targets[0]
+            if dotted(t0) and len(dotted(t0)) == 2 and dotted(t0)[0] == o_.self_name:
+                hf = dotted(t0)[1]
+            elif isinstance(t0, ast.Name):
+                for m in walk_own(o_.node):
+                    if isinstance(m, ast.Assign) and isinstance(m.value, ast.Name) and m.value.id == t0.id and dotted(m.targets[0]) \
+                            and len(dotted(m.targets[0])) == 2:
+                        hf = dotted(m.targets[0])[1]
     loops = [n for n in cl.node.body if isinstance(n, ast.For)]
     ok = False
     if hf and len(loops) == 1 and isinstance(loops[0].target, ast.Name):
